@@ -8,6 +8,7 @@ mod chash;
 mod sync;
 mod mdline;
 mod verify;
+mod filter;
 
 fn dispatch(op: &str, arg: &Value) -> Result<Value, String> {
     match op {
@@ -15,6 +16,7 @@ fn dispatch(op: &str, arg: &Value) -> Result<Value, String> {
         "streamread" => split::op_streamread(arg),
         "chash" => chash::op_chash(arg),
         "sync" => sync::op_sync(arg),
+        "filter" => filter::op_filter(arg),
         "verify" => verify::op_verify(arg),
         "age" => verify::op_age(arg),
         "duration" => verify::op_duration(arg),
